@@ -82,6 +82,9 @@ def gen(rng, tier):
                 style = rng.random()
                 if efam == fam:
                     near = src
+                elif efam == 6 and rng.random() < 0.6:
+                    # an IPv6 entry around the IPv4-mapped form of the source (must NOT match a mapped source)
+                    near = bytes([0] * 10 + [255, 255]) + src
                 else:
                     near = bytes(rng.randrange(256) for _ in range(ew))
                 if style < 0.35:      # exact host, maybe one bit off
@@ -100,7 +103,7 @@ def gen(rng, tier):
                         a = bytes(aa)
                     toks.append(f"E{efam}:{hexs(a)}:{prefix}:1812:{text_of(efam, a, prefix, None)}")
         sfam, saddr = fam, src
-        if fam == 4 and rng.random() < 0.3:       # present the IPv4 source as IPv4-mapped IPv6
+        if fam == 4 and rng.random() < 0.45:      # present the IPv4 source as IPv4-mapped IPv6
             sfam, saddr = 6, bytes([0] * 10 + [255, 255]) + src
         elif fam == 6 and rng.random() < 0.1:     # near-miss of the mapped prefix
             saddr = bytes([0] * 10 + [255, rng.choice([255, 254])]) + src[12:]
